@@ -985,3 +985,31 @@ def do_codetable_vmfault(req):
 
 
 HANDLERS.update({'codes_case': do_codes_case, 'codes_search': do_codes_search, 'codetable_vmfault': do_codetable_vmfault})
+
+
+def do_supplied_table_case(req):
+    """the same events decoded by two parser objects under two different supplied tables"""
+    from pykdebugparser.traces_parser import TracesParser
+    codes = dict(_cached_codes())
+    inv = {v: k for k, v in codes.items()}
+    a, b = inv['BSC_getpid'], inv['BSC_getuid']
+    swapped = dict(codes)
+    swapped[a], swapped[b] = codes[b], codes[a]
+
+    def run(table):
+        p = TracesParser(table, {}, {})
+        out = []
+        for i, (c, q) in enumerate([(a, 1), (a, 2), (b, 1), (b, 2)]):
+            r = p.feed(_mk_kevent(c, 7, q, (0, 42, 0, 0), ts=i))
+            if r is not None:
+                out.append(str(r))
+        return out
+    first = run(codes)
+    second = run(swapped)
+    exp_second = [first[1], first[0]] if len(first) == 2 else None
+    viol = second != exp_second
+    return {'first': first, 'second': second, 'expected_second': exp_second, 'violates': viol,
+            'what': 'a second parser given a table with two names swapped decodes %r, expected %r' % (second, exp_second) if viol else ''}
+
+
+HANDLERS.update({'supplied_table_case': do_supplied_table_case})
